@@ -334,6 +334,9 @@ func rulesC08(e *Engine, r *Report) {
 		}
 		r.Min("R08.5", "success returns of RecoverTransmission", nOK, 1)
 	}
+	// ---------------------------------------------------------------- R08.7
+	r.Rule("R08.7", "`every byte acknowledged` is measured against the bytes to be sent: the chunk's send size is getSendSize() of the very queue node the chunk was cut from (Σ missing ranges for a resumed file, else the file size) - shared with R03.8")
+	e.checkSendSize(r, "R08.7")
 }
 
 // constOr renders a package-level string constant as a canonical literal.
